@@ -561,8 +561,8 @@ func c19Semantics(r *run.Run) {
 // position by position, whatever notation (names, quoted string, range) either list is written in.
 func c19Gsub1Semantics(r *run.Run) {
 	font := c19Font(true)
-	glyphs := []glyph.ID{gen.GA, gen.GB, gen.GC, gen.GL} // ids 1..4: consecutive, so that ranges exist
-	targets := []glyph.ID{gen.GA, gen.GB, gen.GC, gen.GL, gen.GX}
+	glyphs := []glyph.ID{0, gen.GA, gen.GB, gen.GC, gen.GL} // ids 0..4: consecutive, so that ranges exist (also down to glyph 0)
+	targets := []glyph.ID{0, gen.GA, gen.GB, gen.GC, gen.GL, gen.GX}
 	name := func(g glyph.ID) string { return gen.GlyphNames[g] }
 	render := func(seq []glyph.ID, notation int) (string, bool) {
 		switch notation {
@@ -575,6 +575,9 @@ func c19Gsub1Semantics(r *run.Run) {
 		case 1:
 			out := `"`
 			for _, g := range seq {
+				if g == 0 {
+					return "", false // no character stands for glyph 0
+				}
 				out += name(g)
 			}
 			return out + `"`, true
@@ -610,8 +613,8 @@ func c19Gsub1Semantics(r *run.Run) {
 		}
 	}
 	perm(nil)
-	r.Explore(explore.Config{Name: "C19.gsub1-semantics"},
-		fmt.Sprintf("GSUB1 rules 'list -> list': all %d source lists of 1..3 distinct glyphs over {A,B,C,L} x all target lists of the same length over {A,B,C,L,X} x the notations {names, quoted string, range (where the ids are consecutive, up or down)} for either side: the parsed lookup maps the i-th source glyph to the i-th target glyph", len(froms)),
+	r.Explore(explore.Config{Name: "C19.gsub1-semantics", Workers: 4},
+		fmt.Sprintf("GSUB1 rules 'list -> list': all %d source lists of 1..3 distinct glyphs over {.notdef,A,B,C,L} x all target lists of the same length over {.notdef,A,B,C,L,X} x the notations {names, quoted string, range (where the ids are consecutive, up or down)} for either side: the parsed lookup maps the i-th source glyph to the i-th target glyph", len(froms)),
 		func(c *explore.Ctx) {
 			from := froms[c.Choose(len(froms), "source list")]
 			var to []glyph.ID
@@ -627,7 +630,16 @@ func c19Gsub1Semantics(r *run.Run) {
 			c.Sample(func() any { return text })
 			c.Nontrivial()
 			c.Outcome(text)
-			got, err := builder.Parse(font, text)
+			var got gtab.LookupList
+			var err error
+			if fin, pmsg := withWatchdog(5*time.Second, func() { got, err = builder.Parse(font, text) }); !fin {
+				c.FailObserved("C19.terminates", "gsub1 lists", "Parse(%q) does not return within 5 s", text)
+				c.StopExploration() // (a parser that does not return may also allocate without bound)
+				return
+			} else if pmsg != "" {
+				c.Fail("C19.panic", "gsub1 lists / "+explore.PanicSignature(pmsg), "Parse(%q) panics: %s", text, pmsg)
+				return
+			}
 			if err != nil {
 				c.Fail("C19.semantics", "gsub1 lists / parse error", "Parse(%q) fails: %v", text, err)
 				return
@@ -726,7 +738,7 @@ func init() {
 		c19LargePart(r)
 		c19Semantics(r)
 		c19Gsub1Semantics(r)
-		if !r.Replaying() || r.ReplayOf("C19.race") != nil {
+		if (!r.Replaying() || r.ReplayOf("C19.race") != nil) && !explore.StopAll.Load() {
 			racePass(r, "C19", "race19.bin", []string{r.Tier}, "free-running goroutines (the repository's own builder sources, no scheduler rewrite) under the Go race detector, 8 concurrent Parse calls, GOMAXPROCS 1, 2, 4, 16; watchdog; goroutine count back to baseline after every batch; results compared across GOMAXPROCS",
 				"the repository's descriptions, their single-token mutations and the token strings, every input under every GOMAXPROCS setting: no data race (accesses the cooperative scheduler cannot see), same result, no goroutine left running, no hang")
 		}
